@@ -77,16 +77,19 @@ class SeqIter:
 
 class HList:
     """Heap list: concrete (`items` python list of V) or symbolic (ln z3 Int, arr Array Int Val)."""
-    __slots__ = ("items", "ln", "arr", "fresh")
+    __slots__ = ("items", "ln", "arr", "fresh", "kind_set")
 
     def __init__(self, items=None, ln=None, arr=None, fresh=True):
+        self.kind_set = False
         self.items = items
         self.ln = ln
         self.arr = arr
         self.fresh = fresh
 
     def copy(self):
-        return HList(None if self.items is None else list(self.items), self.ln, self.arr, self.fresh)
+        h = HList(None if self.items is None else list(self.items), self.ln, self.arr, self.fresh)
+        h.kind_set = self.kind_set
+        return h
 
 
 class HDict:
